@@ -649,7 +649,7 @@ class Shared:
 
 FOCUS = {
     "wordlists": ("wordlist", "wordlist", "wordlist", "mnemonic"),
-    "tables": ("fresh-curve", "mult-Q", "prep-mult", "double-mult", "multi-mult", "mult-other-ec", "mult-G", "derive-pub", "second-gen", "b58decode", "electrum-old"),
+    "tables": ("ellswift", "fresh-curve", "mult-Q", "prep-mult", "double-mult", "multi-mult", "mult-other-ec", "mult-G", "derive-pub", "second-gen", "b58decode", "electrum-old"),
     "musig": ("musig-values", "musig-verify", "musig-verify"),
 }
 
@@ -670,7 +670,7 @@ def catalogue(ctx: Ctx, sh: Shared, wl: Any, k: int, only: tuple[str, ...] | Non
         "mult-G", "mult-Q", "prep-mult", "double-mult", "multi-mult", "mult-other-ec",
         "derive-prv", "derive-pub", "b58decode", "wordlist", "mnemonic", "second-gen",
         "electrum-old", "address", "dsa", "ssa", "musig-values", "musig-verify", "merkle",
-        "fresh-curve", "fresh-curve", "fresh-curve-dsa", "curve-id-reuse",
+        "fresh-curve", "fresh-curve", "fresh-curve-dsa", "curve-id-reuse", "ellswift",
     ]
     if only is not None:
         kinds = list(only)
@@ -695,6 +695,12 @@ def catalogue(ctx: Ctx, sh: Shared, wl: Any, k: int, only: tuple[str, ...] | Non
             ec = sh.other_ec
             s2 = s % ec.n or 1
             fn = lambda s2=s2, ec=ec: mult(s2, ec.G, ec)  # noqa: E731
+        elif kind == "ellswift":
+            # the per-curve constants of the ElligatorSwift map are memoized in a module dict
+            name = ch.pick(["secp256k1", "secp192k1", "secp224k1", "secp160k1"], "ell.ec")
+            raw = ch.nbytes(2 * ((_curve(name).p.bit_length() + 7) // 8), "ell.octets")
+            k2 = 1 + ch.draw(2**64, "ell.k")
+            fn = lambda name=name, raw=raw, k2=k2: _ellswift(name, raw, k2)  # noqa: E731
         elif kind == "curve-id-reuse":
             na = ch.pick(["secp256k1", "secp128r1", "secp256k1"], "reuse.a")
             nb = ch.pick(["secp112r1", "secp160k1", "secp256k1", "secp128r1"], "reuse.b")
@@ -774,6 +780,21 @@ def _fresh_curve_mult(name: str, s: int) -> Any:
     ec = _clone_curve(name)
     k = s % (ec.n - 1) + 1
     return (name, mult(k, ec.G, ec), mult(k, None, ec))
+
+
+def _curve(name: str) -> Any:
+    from btclib.curves import CURVES  # noqa: PLC0415
+
+    return CURVES[name]
+
+
+def _ellswift(name: str, raw: bytes, k: int) -> Any:
+    from btclib.curves import mult  # noqa: PLC0415
+    from btclib.ecc import ellswift  # noqa: PLC0415
+
+    ec = _curve(name)
+    Q = mult(k % (ec.n - 1) + 1, ec.G, ec)
+    return (ellswift.decode_var(raw, ec), ellswift.decode_var(ellswift.encode_var(Q, ec), ec)[0] == Q[0])
 
 
 def _curve_id_reuse(ctx: Ctx, name_a: str, name_b: str, s: int) -> Any:
